@@ -134,14 +134,16 @@ Proof. exact reply_no_cross. Qed.
 Print Assumptions C04_no_cross.
 
 (* ---- progressive results ---- *)
+(* the state does not change; only the on_progress handler of that very call can fire, with this message's payload
+   (absent args / kwargs read as empty); a call made without on_progress ignores the message; nothing is raised *)
 Theorem C04_progress_local : forall fl cfg s v rq p,
   transport s = true -> sid s = Some v ->
   exists outs, step fl cfg s (RResult rq true p) = (s, outs) /\
     (outs = [Raised XProtocolError] /\ find_req KCall rq (pend s) = None
      \/ exists r, find_req KCall rq (pend s) = Some r /\
-          (outs = [] \/ outs = [Raised XAttributeError] \/ outs = [Raised XTypeError]
-           \/ exists d a kw, outs = [Progress (r_fut r) d a kw] /\
-                exists c, r_opts r = Some c /\ co_progress c = true /\ d = co_details c)).
+          (outs = [] /\ (r_opts r = None \/ exists c, r_opts r = Some c /\ co_progress c = false)
+           \/ exists c, r_opts r = Some c /\ co_progress c = true /\
+                outs = [Progress (r_fut r) (co_details c) (args_or_empty (p_args p)) (kw_or_empty (p_kw p))])).
 Proof. exact progress_local. Qed.
 Print Assumptions C04_progress_local.
 
@@ -159,30 +161,22 @@ Theorem C04_error_foreign_type_is_violation : forall fl cfg s v rtype rq uri p,
 Proof. exact error_foreign_type. Qed.
 Print Assumptions C04_error_foreign_type_is_violation.
 
-(* ---- statements that are FALSE of the faithful model (each witness is a replay on the real code) ---- *)
-(* "nothing but ProtocolError leaves onMessage": refuted twice by progressive RESULTs.
-   (1) CallOptions(details=True, on_progress=...) and a progressive RESULT without kwargs: CallResult( *args, **None ) *)
-Definition opts_details_progress := Some {| co_timeout := None; co_progress := true; co_details := true |}.
-Theorem C04_only_protocol_error_refuted_details :
-  exists fl cfg ops, ~ (forall e, In (Raised e) (trace fl cfg ops) -> e = XProtocolError).
-Proof.
-  exists Tx, default_cfg,
-    [OOpen; RWelcome 1; ACall 1 [] [] opts_details_progress; RResult 1 true {| p_args := Some [7]; p_kw := None |}].
-  intro H. specialize (H XTypeError). assert (XTypeError = XProtocolError); [|discriminate].
-  apply H. vm_compute. repeat (try (left; reflexivity); right).
-Qed.
-Print Assumptions C04_only_protocol_error_refuted_details.
+(* ---- nothing but ProtocolError leaves an entry point ---- *)
+(* (was refuted twice before the repairs d5bb0938 / a97bf2af of the progressive-RESULT branch.)
+   Every step either lets only ProtocolError out, or it is the GOODBYE reply handed to a transport that refuses
+   sends after close() -- then exactly TransportLost; over whole histories nothing else is ever raised. *)
+Theorem C04_only_protocol_error_step : forall fl cfg s o,
+  pe_only (snd (step fl cfg s o)) \/
+  (goodbye_reply_refused cfg s o /\ snd (step fl cfg s o) = [SendFailed (MGoodbye RsNormal); Raised XTransportLost]).
+Proof. exact step_raises. Qed.
+Print Assumptions C04_only_protocol_error_step.
 
-(* (2) a call made without options and a progressive RESULT: call_request.options is None *)
-Theorem C04_only_protocol_error_refuted_no_options :
-  exists fl cfg ops, ~ (forall e, In (Raised e) (trace fl cfg ops) -> e = XProtocolError).
-Proof.
-  exists Tx, default_cfg, [OOpen; RWelcome 1; ACall 1 [] [] None; RResult 1 true {| p_args := None; p_kw := None |}].
-  intro H. specialize (H XAttributeError). assert (XAttributeError = XProtocolError); [|discriminate].
-  apply H. vm_compute. repeat (try (left; reflexivity); right).
-Qed.
-Print Assumptions C04_only_protocol_error_refuted_no_options.
+Theorem C04_only_protocol_error : forall fl cfg ops e,
+  In (Raised e) (trace fl cfg ops) -> e = XProtocolError \/ e = XTransportLost.
+Proof. exact trace_raises. Qed.
+Print Assumptions C04_only_protocol_error.
 
+(* ---- a statement that is FALSE of the faithful model (the witness is a replay on the real code) ---- *)
 (* "a reply bearing the id and type of a pending request completes it": refuted by REGISTERED naming a registration
    id already in use: the record is popped, ProtocolError raised, the future is never completed -- not even when the
    transport goes away *)
@@ -198,6 +192,17 @@ Qed.
 Print Assumptions C04_reply_completes_refuted_duplicate_registration.
 
 (* ---- non-vacuity ---- *)
+(* the two former counterexamples: progressive RESULTs without kwargs / for a call without options *)
+Example C04_witness_progressive_repaired :
+  trace Tx default_cfg
+    [OOpen; RWelcome 1; ACall 1 [] [] (Some {| co_timeout := None; co_progress := true; co_details := true |});
+     RResult 1 true {| p_args := Some [7]; p_kw := None |}; RResult 1 true {| p_args := None; p_kw := None |};
+     ACall 2 [] [] None; RResult 2 true {| p_args := None; p_kw := None |}]
+  = [Called CbConnect; Sent MHello; Called CbWelcome; Called (CbJoin 1);
+     Sent (MCall 1 1 [] [] None true); ApiReturned (Some 0); Progress 0 true [7] []; Progress 0 true [] [];
+     Sent (MCall 2 2 [] [] None false); ApiReturned (Some 1)].
+Proof. vm_compute. reflexivity. Qed.
+
 (* two overlapping calls answered in reverse order, an unknown reply in between, on both flavours *)
 Example C04_witness_reverse_order :
   trace Tx default_cfg
